@@ -411,7 +411,7 @@ theorem eqStar_range (V : Version) (hV : V.isFinal = true) :
   obtain ⟨h1, h2, h3, h4⟩ := final_parts hV
   have hs : V.isStable = true := by simp [isStable, isUnstable, isPrerelease, isDevrelease, h1, h3]
   constructor
-  · simp [VParser.makeXConstraintRange, isPostrelease, h2, hs, nextStable, isDevrelease, mk']
+  · simp [VParser.makeXConstraintRange, isPostrelease, h2, h3, hs, nextStable, isDevrelease, mk']
   · simp [nextStable, hs, h4, isFinal, mk']
 
 theorem eqStar_allows (V v : Version) (hV : V.isFinal = true) (hVwf : V.wf = true) (hv : v.wf = true) :
@@ -524,5 +524,25 @@ theorem halfOpen_allows_iff (V H v : Version) (hVwf : V.wf = true) (hHwf : H.wf 
     have hA := VRange.halfOpen_allowedMax (V := V) hfin (ne_of_lt hlt)
     simp only [VRange.halfOpen] at hA
     simp [VRange.denLo, VRange.denHi, hA, VRange.halfOpen]
+
+/-- the one-member constraints of the ordered comparisons and `==` -/
+def memberOf : SOp → Version → Option RC
+  | .eq, V => some (.ver V)
+  | .lt, V => some (.rng ⟨none, some V, false, false⟩)
+  | .le, V => some (.rng ⟨none, some V, false, true⟩)
+  | .gt, V => some (.rng ⟨some V, none, false, false⟩)
+  | .ge, V => some (.rng ⟨some V, none, true, false⟩)
+  | _, _ => none
+
+theorem memberOf_spec (op : SOp) (V : Version) (m : RC) (h : memberOf op V = some m) :
+    clauseVC op V = .ok (.single m) ∧ (∀ e ∈ m.bounds, e = V) ∧ (V.wf = true → m.WF) := by
+  cases op <;> simp [memberOf] at h <;> subst h <;>
+    refine ⟨rfl, by intro e he; simp [RC.bounds, RC.view, VRange.bounds, RC.min, RC.max] at he; simp [he], ?_⟩
+  · intro h; exact h
+  all_goals
+    intro h
+    refine ⟨by intro e he; simp [VRange.bounds] at he; subst he; exact h, ?_⟩
+    intro m M hm hM; simp at hm hM
+
 
 end Poetry
